@@ -234,8 +234,20 @@ def run_history(case, d, want_regen=True):
         kw['metadata'] = case['metadata']
     if 0 in init.shape[1:]:
         kw['chunklen'] = 1       # (the default chunk length divides by the size of one row)
-    a = darr.asarray(path, make_layout(init, case.get('layout', 'C')),
-                     accessmode=case['mode'], **kw)
+    if case.get('iterchunks') and init.shape[0] >= 2:
+        # created from an ITERATOR of chunks; the later chunk has the same values in the other byte order /
+        # a wider type of the same kind (it is cast to the first chunk's type)
+        k = init.shape[0] // 2
+        second = init[k:].astype(init.dtype.newbyteorder()) if case['iterchunks'] == 'swapped' else \
+            init[k:].astype({'i': 'int64', 'u': 'uint64', 'f': 'float64', 'c': 'complex128'}[init.dtype.kind])
+        try:
+            a = darr.asarray(path, (c for c in [init[:k].copy(), second]), accessmode=case['mode'],
+                             **{kk: v for kk, v in kw.items() if kk != 'chunklen'})
+        except Exception as e:
+            return [dict(creation_failed=f'{type(e).__name__}: {e}'[:300], files=read_files(path) if os.path.isdir(path) else None)]
+    else:
+        a = darr.asarray(path, make_layout(init, case.get('layout', 'C')),
+                         accessmode=case['mode'], **kw)
     ref = init.copy()
     steps = [observe(a, path, ref, ['ok'], want_regen=want_regen)]
     held = []
